@@ -123,6 +123,11 @@
       switch (e) \
       { \
       case ERROR_INSUFFICIENT_MEMORY: \
+        for (int i = 0; i <= compiler->loop_index; i++) \
+        { \
+          loop_vars_cleanup(i); \
+        } \
+        compiler->loop_index = -1; \
         YYABORT; \
       default: \
         YYERROR; \
@@ -200,7 +205,7 @@
     "ABCDEFGHIJKLMNOPQRSTUVWXYZabcdefghijklmnopqrstuvwxyz0123456789+/"
 
 
-#line 204 "libyara/grammar.c"
+#line 209 "libyara/grammar.c"
 
 # ifndef YY_CAST
 #  ifdef __cplusplus
@@ -379,7 +384,7 @@ extern int yara_yydebug;
 #if ! defined YYSTYPE && ! defined YYSTYPE_IS_DECLARED
 union YYSTYPE
 {
-#line 343 "libyara/grammar.y"
+#line 348 "libyara/grammar.y"
 
   YR_EXPRESSION   expression;
   SIZED_STRING*   sized_string;
@@ -394,7 +399,7 @@ union YYSTYPE
   YR_ARENA_REF meta;
   YR_ARENA_REF string;
 
-#line 398 "libyara/grammar.c"
+#line 403 "libyara/grammar.c"
 
 };
 typedef union YYSTYPE YYSTYPE;
@@ -942,23 +947,23 @@ static const yytype_int8 yytranslate[] =
 /* YYRLINE[YYN] -- Source line where rule number YYN was defined.  */
 static const yytype_int16 yyrline[] =
 {
-       0,   362,   362,   363,   364,   365,   366,   367,   368,   372,
-     380,   393,   398,   392,   429,   432,   448,   451,   466,   474,
-     475,   480,   481,   487,   490,   506,   515,   557,   558,   563,
-     580,   594,   608,   622,   640,   641,   647,   646,   663,   662,
-     683,   682,   707,   713,   773,   774,   775,   776,   777,   778,
-     784,   805,   836,   844,   861,   869,   889,   890,   904,   905,
-     906,   907,   908,   912,   913,   927,   931,  1027,  1075,  1136,
-    1182,  1188,  1192,  1227,  1280,  1335,  1366,  1373,  1380,  1393,
-    1404,  1415,  1426,  1437,  1448,  1459,  1470,  1485,  1501,  1513,
-    1588,  1626,  1530,  1755,  1778,  1790,  1818,  1837,  1860,  1908,
-    1915,  1922,  1921,  1968,  1967,  2018,  2026,  2034,  2042,  2050,
-    2058,  2066,  2070,  2078,  2079,  2104,  2124,  2152,  2226,  2258,
-    2276,  2287,  2330,  2346,  2366,  2376,  2375,  2384,  2398,  2399,
-    2404,  2414,  2429,  2428,  2441,  2442,  2447,  2480,  2505,  2561,
-    2568,  2574,  2580,  2590,  2594,  2602,  2614,  2628,  2635,  2642,
-    2667,  2679,  2691,  2703,  2718,  2730,  2745,  2792,  2813,  2848,
-    2883,  2917,  2948,  2970,  2980,  2990,  3000,  3010,  3030,  3050
+       0,   367,   367,   368,   369,   370,   371,   372,   373,   377,
+     385,   398,   403,   397,   434,   437,   453,   456,   471,   479,
+     480,   485,   486,   492,   495,   511,   520,   562,   563,   568,
+     585,   599,   613,   627,   645,   646,   652,   651,   668,   667,
+     688,   687,   712,   718,   778,   779,   780,   781,   782,   783,
+     789,   810,   841,   849,   866,   874,   894,   895,   909,   910,
+     911,   912,   913,   917,   918,   932,   936,  1032,  1080,  1141,
+    1187,  1193,  1197,  1232,  1285,  1340,  1371,  1378,  1385,  1398,
+    1409,  1420,  1431,  1442,  1453,  1464,  1475,  1490,  1506,  1518,
+    1593,  1631,  1535,  1760,  1783,  1795,  1823,  1842,  1865,  1913,
+    1920,  1927,  1926,  1973,  1972,  2023,  2031,  2039,  2047,  2055,
+    2063,  2071,  2075,  2083,  2084,  2109,  2129,  2157,  2231,  2263,
+    2281,  2292,  2335,  2351,  2371,  2381,  2380,  2389,  2403,  2404,
+    2409,  2419,  2434,  2433,  2446,  2447,  2452,  2485,  2510,  2566,
+    2573,  2579,  2585,  2595,  2599,  2607,  2619,  2633,  2640,  2647,
+    2672,  2684,  2696,  2708,  2723,  2735,  2750,  2797,  2818,  2853,
+    2888,  2922,  2953,  2975,  2985,  2995,  3005,  3015,  3035,  3055
 };
 #endif
 
@@ -1774,61 +1779,61 @@ yydestruct (const char *yymsg,
   switch (yykind)
     {
     case YYSYMBOL__IDENTIFIER_: /* "identifier"  */
-#line 313 "libyara/grammar.y"
+#line 318 "libyara/grammar.y"
             { yr_free(((*yyvaluep).c_string)); ((*yyvaluep).c_string) = NULL; }
-#line 1780 "libyara/grammar.c"
+#line 1785 "libyara/grammar.c"
         break;
 
     case YYSYMBOL__STRING_IDENTIFIER_: /* "string identifier"  */
-#line 317 "libyara/grammar.y"
+#line 322 "libyara/grammar.y"
             { yr_free(((*yyvaluep).c_string)); ((*yyvaluep).c_string) = NULL; }
-#line 1786 "libyara/grammar.c"
+#line 1791 "libyara/grammar.c"
         break;
 
     case YYSYMBOL__STRING_COUNT_: /* "string count"  */
-#line 314 "libyara/grammar.y"
+#line 319 "libyara/grammar.y"
             { yr_free(((*yyvaluep).c_string)); ((*yyvaluep).c_string) = NULL; }
-#line 1792 "libyara/grammar.c"
+#line 1797 "libyara/grammar.c"
         break;
 
     case YYSYMBOL__STRING_OFFSET_: /* "string offset"  */
-#line 315 "libyara/grammar.y"
+#line 320 "libyara/grammar.y"
             { yr_free(((*yyvaluep).c_string)); ((*yyvaluep).c_string) = NULL; }
-#line 1798 "libyara/grammar.c"
+#line 1803 "libyara/grammar.c"
         break;
 
     case YYSYMBOL__STRING_LENGTH_: /* "string length"  */
-#line 316 "libyara/grammar.y"
+#line 321 "libyara/grammar.y"
             { yr_free(((*yyvaluep).c_string)); ((*yyvaluep).c_string) = NULL; }
-#line 1804 "libyara/grammar.c"
+#line 1809 "libyara/grammar.c"
         break;
 
     case YYSYMBOL__STRING_IDENTIFIER_WITH_WILDCARD_: /* "string identifier with wildcard"  */
-#line 318 "libyara/grammar.y"
+#line 323 "libyara/grammar.y"
             { yr_free(((*yyvaluep).c_string)); ((*yyvaluep).c_string) = NULL; }
-#line 1810 "libyara/grammar.c"
+#line 1815 "libyara/grammar.c"
         break;
 
     case YYSYMBOL__TEXT_STRING_: /* "text string"  */
-#line 319 "libyara/grammar.y"
+#line 324 "libyara/grammar.y"
             { yr_free(((*yyvaluep).sized_string)); ((*yyvaluep).sized_string) = NULL; }
-#line 1816 "libyara/grammar.c"
+#line 1821 "libyara/grammar.c"
         break;
 
     case YYSYMBOL__HEX_STRING_: /* "hex string"  */
-#line 320 "libyara/grammar.y"
+#line 325 "libyara/grammar.y"
             { yr_free(((*yyvaluep).sized_string)); ((*yyvaluep).sized_string) = NULL; }
-#line 1822 "libyara/grammar.c"
+#line 1827 "libyara/grammar.c"
         break;
 
     case YYSYMBOL__REGEXP_: /* "regular expression"  */
-#line 321 "libyara/grammar.y"
+#line 326 "libyara/grammar.y"
             { yr_free(((*yyvaluep).sized_string)); ((*yyvaluep).sized_string) = NULL; }
-#line 1828 "libyara/grammar.c"
+#line 1833 "libyara/grammar.c"
         break;
 
     case YYSYMBOL_string_modifiers: /* string_modifiers  */
-#line 334 "libyara/grammar.y"
+#line 339 "libyara/grammar.y"
             {
   if (((*yyvaluep).modifier).alphabet != NULL)
   {
@@ -1836,11 +1841,11 @@ yydestruct (const char *yymsg,
     ((*yyvaluep).modifier).alphabet = NULL;
   }
 }
-#line 1840 "libyara/grammar.c"
+#line 1845 "libyara/grammar.c"
         break;
 
     case YYSYMBOL_string_modifier: /* string_modifier  */
-#line 326 "libyara/grammar.y"
+#line 331 "libyara/grammar.y"
             {
   if (((*yyvaluep).modifier).alphabet != NULL)
   {
@@ -1848,19 +1853,19 @@ yydestruct (const char *yymsg,
     ((*yyvaluep).modifier).alphabet = NULL;
   }
 }
-#line 1852 "libyara/grammar.c"
+#line 1857 "libyara/grammar.c"
         break;
 
     case YYSYMBOL_arguments: /* arguments  */
-#line 323 "libyara/grammar.y"
+#line 328 "libyara/grammar.y"
             { yr_free(((*yyvaluep).c_string)); ((*yyvaluep).c_string) = NULL; }
-#line 1858 "libyara/grammar.c"
+#line 1863 "libyara/grammar.c"
         break;
 
     case YYSYMBOL_arguments_list: /* arguments_list  */
-#line 324 "libyara/grammar.y"
+#line 329 "libyara/grammar.y"
             { yr_free(((*yyvaluep).c_string)); ((*yyvaluep).c_string) = NULL; }
-#line 1864 "libyara/grammar.c"
+#line 1869 "libyara/grammar.c"
         break;
 
       default:
@@ -2137,23 +2142,23 @@ yyreduce:
   switch (yyn)
     {
   case 8: /* rules: rules "end of included file"  */
-#line 369 "libyara/grammar.y"
+#line 374 "libyara/grammar.y"
       {
         _yr_compiler_pop_file_name(compiler);
       }
-#line 2145 "libyara/grammar.c"
+#line 2150 "libyara/grammar.c"
     break;
 
   case 9: /* rules: rules error "end of included file"  */
-#line 373 "libyara/grammar.y"
+#line 378 "libyara/grammar.y"
       {
         _yr_compiler_pop_file_name(compiler);
       }
-#line 2153 "libyara/grammar.c"
+#line 2158 "libyara/grammar.c"
     break;
 
   case 10: /* import: "<import>" "text string"  */
-#line 381 "libyara/grammar.y"
+#line 386 "libyara/grammar.y"
       {
         int result = yr_parser_reduce_import(yyscanner, (yyvsp[0].sized_string));
 
@@ -2161,20 +2166,20 @@ yyreduce:
 
         fail_if_error(result);
       }
-#line 2165 "libyara/grammar.c"
+#line 2170 "libyara/grammar.c"
     break;
 
   case 11: /* @1: %empty  */
-#line 393 "libyara/grammar.y"
+#line 398 "libyara/grammar.y"
       {
         fail_if_error(yr_parser_reduce_rule_declaration_phase_1(
             yyscanner, (int32_t) (yyvsp[-2].integer), (yyvsp[0].c_string), &(yyval.rule)));
       }
-#line 2174 "libyara/grammar.c"
+#line 2179 "libyara/grammar.c"
     break;
 
   case 12: /* $@2: %empty  */
-#line 398 "libyara/grammar.y"
+#line 403 "libyara/grammar.y"
       {
         YR_RULE* rule = (YR_RULE*) yr_arena_ref_to_ptr(
             compiler->arena, &(yyvsp[-4].rule));
@@ -2188,11 +2193,11 @@ yyreduce:
         rule->strings = (YR_STRING*) yr_arena_ref_to_ptr(
             compiler->arena, &(yyvsp[0].string));
       }
-#line 2192 "libyara/grammar.c"
+#line 2197 "libyara/grammar.c"
     break;
 
   case 13: /* rule: rule_modifiers "<rule>" "identifier" @1 tags '{' meta strings $@2 condition '}'  */
-#line 412 "libyara/grammar.y"
+#line 417 "libyara/grammar.y"
       {
         YR_RULE* rule = (YR_RULE*) yr_arena_ref_to_ptr(
             compiler->arena, &(yyvsp[-7].rule));
@@ -2205,19 +2210,19 @@ yyreduce:
 
         fail_if_error(result);
       }
-#line 2209 "libyara/grammar.c"
+#line 2214 "libyara/grammar.c"
     break;
 
   case 14: /* meta: %empty  */
-#line 429 "libyara/grammar.y"
+#line 434 "libyara/grammar.y"
       {
         (yyval.meta) = YR_ARENA_NULL_REF;
       }
-#line 2217 "libyara/grammar.c"
+#line 2222 "libyara/grammar.c"
     break;
 
   case 15: /* meta: "<meta>" ':' meta_declarations  */
-#line 433 "libyara/grammar.y"
+#line 438 "libyara/grammar.y"
       {
         YR_META* meta = yr_arena_get_ptr(
             compiler->arena,
@@ -2228,19 +2233,19 @@ yyreduce:
 
         (yyval.meta) = (yyvsp[0].meta);
       }
-#line 2232 "libyara/grammar.c"
+#line 2237 "libyara/grammar.c"
     break;
 
   case 16: /* strings: %empty  */
-#line 448 "libyara/grammar.y"
+#line 453 "libyara/grammar.y"
       {
         (yyval.string) = YR_ARENA_NULL_REF;
       }
-#line 2240 "libyara/grammar.c"
+#line 2245 "libyara/grammar.c"
     break;
 
   case 17: /* strings: "<strings>" ':' string_declarations  */
-#line 452 "libyara/grammar.y"
+#line 457 "libyara/grammar.y"
       {
         YR_STRING* string = (YR_STRING*) yr_arena_get_ptr(
             compiler->arena,
@@ -2251,51 +2256,51 @@ yyreduce:
 
         (yyval.string) = (yyvsp[0].string);
       }
-#line 2255 "libyara/grammar.c"
+#line 2260 "libyara/grammar.c"
     break;
 
   case 18: /* condition: "<condition>" ':' boolean_expression  */
-#line 467 "libyara/grammar.y"
+#line 472 "libyara/grammar.y"
       {
         (yyval.expression) = (yyvsp[0].expression);
       }
-#line 2263 "libyara/grammar.c"
+#line 2268 "libyara/grammar.c"
     break;
 
   case 19: /* rule_modifiers: %empty  */
-#line 474 "libyara/grammar.y"
+#line 479 "libyara/grammar.y"
                                        { (yyval.integer) = 0;  }
-#line 2269 "libyara/grammar.c"
+#line 2274 "libyara/grammar.c"
     break;
 
   case 20: /* rule_modifiers: rule_modifiers rule_modifier  */
-#line 475 "libyara/grammar.y"
+#line 480 "libyara/grammar.y"
                                        { (yyval.integer) = (yyvsp[-1].integer) | (yyvsp[0].integer); }
-#line 2275 "libyara/grammar.c"
+#line 2280 "libyara/grammar.c"
     break;
 
   case 21: /* rule_modifier: "<private>"  */
-#line 480 "libyara/grammar.y"
+#line 485 "libyara/grammar.y"
                      { (yyval.integer) = RULE_FLAGS_PRIVATE; }
-#line 2281 "libyara/grammar.c"
+#line 2286 "libyara/grammar.c"
     break;
 
   case 22: /* rule_modifier: "<global>"  */
-#line 481 "libyara/grammar.y"
+#line 486 "libyara/grammar.y"
                      { (yyval.integer) = RULE_FLAGS_GLOBAL; }
-#line 2287 "libyara/grammar.c"
+#line 2292 "libyara/grammar.c"
     break;
 
   case 23: /* tags: %empty  */
-#line 487 "libyara/grammar.y"
+#line 492 "libyara/grammar.y"
       {
         (yyval.tag) = YR_ARENA_NULL_REF;
       }
-#line 2295 "libyara/grammar.c"
+#line 2300 "libyara/grammar.c"
     break;
 
   case 24: /* tags: ':' tag_list  */
-#line 491 "libyara/grammar.y"
+#line 496 "libyara/grammar.y"
       {
         // Tags list is represented in the arena as a sequence
         // of null-terminated strings, the sequence ends with an
@@ -2307,11 +2312,11 @@ yyreduce:
 
         (yyval.tag) = (yyvsp[0].tag);
       }
-#line 2311 "libyara/grammar.c"
+#line 2316 "libyara/grammar.c"
     break;
 
   case 25: /* tag_list: "identifier"  */
-#line 507 "libyara/grammar.y"
+#line 512 "libyara/grammar.y"
       {
         int result = yr_arena_write_string(
             yyget_extra(yyscanner)->arena, YR_SZ_POOL, (yyvsp[0].c_string), &(yyval.tag));
@@ -2320,11 +2325,11 @@ yyreduce:
 
         fail_if_error(result);
       }
-#line 2324 "libyara/grammar.c"
+#line 2329 "libyara/grammar.c"
     break;
 
   case 26: /* tag_list: tag_list "identifier"  */
-#line 516 "libyara/grammar.y"
+#line 521 "libyara/grammar.y"
       {
         YR_ARENA_REF ref;
 
@@ -2361,23 +2366,23 @@ yyreduce:
 
         (yyval.tag) = (yyvsp[-1].tag);
       }
-#line 2365 "libyara/grammar.c"
+#line 2370 "libyara/grammar.c"
     break;
 
   case 27: /* meta_declarations: meta_declaration  */
-#line 557 "libyara/grammar.y"
+#line 562 "libyara/grammar.y"
                                           {  (yyval.meta) = (yyvsp[0].meta); }
-#line 2371 "libyara/grammar.c"
+#line 2376 "libyara/grammar.c"
     break;
 
   case 28: /* meta_declarations: meta_declarations meta_declaration  */
-#line 558 "libyara/grammar.y"
+#line 563 "libyara/grammar.y"
                                           {  (yyval.meta) = (yyvsp[-1].meta); }
-#line 2377 "libyara/grammar.c"
+#line 2382 "libyara/grammar.c"
     break;
 
   case 29: /* meta_declaration: "identifier" '=' "text string"  */
-#line 564 "libyara/grammar.y"
+#line 569 "libyara/grammar.y"
       {
         SIZED_STRING* sized_string = (yyvsp[0].sized_string);
 
@@ -2394,11 +2399,11 @@ yyreduce:
 
         fail_if_error(result);
       }
-#line 2398 "libyara/grammar.c"
+#line 2403 "libyara/grammar.c"
     break;
 
   case 30: /* meta_declaration: "identifier" '=' "integer number"  */
-#line 581 "libyara/grammar.y"
+#line 586 "libyara/grammar.y"
       {
         int result = yr_parser_reduce_meta_declaration(
             yyscanner,
@@ -2412,11 +2417,11 @@ yyreduce:
 
         fail_if_error(result);
       }
-#line 2416 "libyara/grammar.c"
+#line 2421 "libyara/grammar.c"
     break;
 
   case 31: /* meta_declaration: "identifier" '=' '-' "integer number"  */
-#line 595 "libyara/grammar.y"
+#line 600 "libyara/grammar.y"
       {
         int result = yr_parser_reduce_meta_declaration(
             yyscanner,
@@ -2430,11 +2435,11 @@ yyreduce:
 
         fail_if_error(result);
       }
-#line 2434 "libyara/grammar.c"
+#line 2439 "libyara/grammar.c"
     break;
 
   case 32: /* meta_declaration: "identifier" '=' "<true>"  */
-#line 609 "libyara/grammar.y"
+#line 614 "libyara/grammar.y"
       {
         int result = yr_parser_reduce_meta_declaration(
             yyscanner,
@@ -2448,11 +2453,11 @@ yyreduce:
 
         fail_if_error(result);
       }
-#line 2452 "libyara/grammar.c"
+#line 2457 "libyara/grammar.c"
     break;
 
   case 33: /* meta_declaration: "identifier" '=' "<false>"  */
-#line 623 "libyara/grammar.y"
+#line 628 "libyara/grammar.y"
       {
         int result = yr_parser_reduce_meta_declaration(
             yyscanner,
@@ -2466,31 +2471,31 @@ yyreduce:
 
         fail_if_error(result);
       }
-#line 2470 "libyara/grammar.c"
+#line 2475 "libyara/grammar.c"
     break;
 
   case 34: /* string_declarations: string_declaration  */
-#line 640 "libyara/grammar.y"
+#line 645 "libyara/grammar.y"
                                               { (yyval.string) = (yyvsp[0].string); }
-#line 2476 "libyara/grammar.c"
+#line 2481 "libyara/grammar.c"
     break;
 
   case 35: /* string_declarations: string_declarations string_declaration  */
-#line 641 "libyara/grammar.y"
+#line 646 "libyara/grammar.y"
                                               { (yyval.string) = (yyvsp[-1].string); }
-#line 2482 "libyara/grammar.c"
+#line 2487 "libyara/grammar.c"
     break;
 
   case 36: /* $@3: %empty  */
-#line 647 "libyara/grammar.y"
+#line 652 "libyara/grammar.y"
       {
         compiler->current_line = yyget_lineno(yyscanner);
       }
-#line 2490 "libyara/grammar.c"
+#line 2495 "libyara/grammar.c"
     break;
 
   case 37: /* string_declaration: "string identifier" '=' $@3 "text string" string_modifiers  */
-#line 651 "libyara/grammar.y"
+#line 656 "libyara/grammar.y"
       {
         int result = yr_parser_reduce_string_declaration(
             yyscanner, (yyvsp[0].modifier), (yyvsp[-4].c_string), (yyvsp[-1].sized_string), &(yyval.string));
@@ -2502,19 +2507,19 @@ yyreduce:
         fail_if_error(result);
         compiler->current_line = 0;
       }
-#line 2506 "libyara/grammar.c"
+#line 2511 "libyara/grammar.c"
     break;
 
   case 38: /* $@4: %empty  */
-#line 663 "libyara/grammar.y"
+#line 668 "libyara/grammar.y"
       {
         compiler->current_line = yyget_lineno(yyscanner);
       }
-#line 2514 "libyara/grammar.c"
+#line 2519 "libyara/grammar.c"
     break;
 
   case 39: /* string_declaration: "string identifier" '=' $@4 "regular expression" regexp_modifiers  */
-#line 667 "libyara/grammar.y"
+#line 672 "libyara/grammar.y"
       {
         int result;
 
@@ -2530,19 +2535,19 @@ yyreduce:
 
         compiler->current_line = 0;
       }
-#line 2534 "libyara/grammar.c"
+#line 2539 "libyara/grammar.c"
     break;
 
   case 40: /* $@5: %empty  */
-#line 683 "libyara/grammar.y"
+#line 688 "libyara/grammar.y"
       {
         compiler->current_line = yyget_lineno(yyscanner);
       }
-#line 2542 "libyara/grammar.c"
+#line 2547 "libyara/grammar.c"
     break;
 
   case 41: /* string_declaration: "string identifier" '=' $@5 "hex string" hex_modifiers  */
-#line 687 "libyara/grammar.y"
+#line 692 "libyara/grammar.y"
       {
         int result;
 
@@ -2558,22 +2563,22 @@ yyreduce:
 
         compiler->current_line = 0;
       }
-#line 2562 "libyara/grammar.c"
+#line 2567 "libyara/grammar.c"
     break;
 
   case 42: /* string_modifiers: %empty  */
-#line 707 "libyara/grammar.y"
+#line 712 "libyara/grammar.y"
       {
         (yyval.modifier).flags = 0;
         (yyval.modifier).xor_min = 0;
         (yyval.modifier).xor_max = 0;
         (yyval.modifier).alphabet = NULL;
       }
-#line 2573 "libyara/grammar.c"
+#line 2578 "libyara/grammar.c"
     break;
 
   case 43: /* string_modifiers: string_modifiers string_modifier  */
-#line 714 "libyara/grammar.y"
+#line 719 "libyara/grammar.y"
       {
         (yyval.modifier) = (yyvsp[-1].modifier);
 
@@ -2629,51 +2634,51 @@ yyreduce:
           (yyval.modifier).flags = (yyval.modifier).flags | (yyvsp[0].modifier).flags;
         }
       }
-#line 2633 "libyara/grammar.c"
+#line 2638 "libyara/grammar.c"
     break;
 
   case 44: /* string_modifier: "<wide>"  */
-#line 773 "libyara/grammar.y"
+#line 778 "libyara/grammar.y"
                     { (yyval.modifier).flags = STRING_FLAGS_WIDE; }
-#line 2639 "libyara/grammar.c"
+#line 2644 "libyara/grammar.c"
     break;
 
   case 45: /* string_modifier: "<ascii>"  */
-#line 774 "libyara/grammar.y"
+#line 779 "libyara/grammar.y"
                     { (yyval.modifier).flags = STRING_FLAGS_ASCII; }
-#line 2645 "libyara/grammar.c"
+#line 2650 "libyara/grammar.c"
     break;
 
   case 46: /* string_modifier: "<nocase>"  */
-#line 775 "libyara/grammar.y"
+#line 780 "libyara/grammar.y"
                     { (yyval.modifier).flags = STRING_FLAGS_NO_CASE; }
-#line 2651 "libyara/grammar.c"
+#line 2656 "libyara/grammar.c"
     break;
 
   case 47: /* string_modifier: "<fullword>"  */
-#line 776 "libyara/grammar.y"
+#line 781 "libyara/grammar.y"
                     { (yyval.modifier).flags = STRING_FLAGS_FULL_WORD; }
-#line 2657 "libyara/grammar.c"
+#line 2662 "libyara/grammar.c"
     break;
 
   case 48: /* string_modifier: "<private>"  */
-#line 777 "libyara/grammar.y"
+#line 782 "libyara/grammar.y"
                     { (yyval.modifier).flags = STRING_FLAGS_PRIVATE; }
-#line 2663 "libyara/grammar.c"
+#line 2668 "libyara/grammar.c"
     break;
 
   case 49: /* string_modifier: "<xor>"  */
-#line 779 "libyara/grammar.y"
+#line 784 "libyara/grammar.y"
       {
         (yyval.modifier).flags = STRING_FLAGS_XOR;
         (yyval.modifier).xor_min = 0;
         (yyval.modifier).xor_max = 255;
       }
-#line 2673 "libyara/grammar.c"
+#line 2678 "libyara/grammar.c"
     break;
 
   case 50: /* string_modifier: "<xor>" '(' "integer number" ')'  */
-#line 785 "libyara/grammar.y"
+#line 790 "libyara/grammar.y"
       {
         int result = ERROR_SUCCESS;
 
@@ -2689,11 +2694,11 @@ yyreduce:
         (yyval.modifier).xor_min = (uint8_t) (yyvsp[-1].integer);
         (yyval.modifier).xor_max = (uint8_t) (yyvsp[-1].integer);
       }
-#line 2693 "libyara/grammar.c"
+#line 2698 "libyara/grammar.c"
     break;
 
   case 51: /* string_modifier: "<xor>" '(' "integer number" '-' "integer number" ')'  */
-#line 806 "libyara/grammar.y"
+#line 811 "libyara/grammar.y"
       {
         int result = ERROR_SUCCESS;
 
@@ -2724,11 +2729,11 @@ yyreduce:
         (yyval.modifier).xor_min = (uint8_t) (yyvsp[-3].integer);
         (yyval.modifier).xor_max = (uint8_t) (yyvsp[-1].integer);
       }
-#line 2728 "libyara/grammar.c"
+#line 2733 "libyara/grammar.c"
     break;
 
   case 52: /* string_modifier: "<base64>"  */
-#line 837 "libyara/grammar.y"
+#line 842 "libyara/grammar.y"
       {
         (yyval.modifier).flags = STRING_FLAGS_BASE64;
         (yyval.modifier).alphabet = ss_new(DEFAULT_BASE64_ALPHABET);
@@ -2736,11 +2741,11 @@ yyreduce:
         if ((yyval.modifier).alphabet == NULL)
           fail_with_error(ERROR_INSUFFICIENT_MEMORY);
       }
-#line 2740 "libyara/grammar.c"
+#line 2745 "libyara/grammar.c"
     break;
 
   case 53: /* string_modifier: "<base64>" '(' "text string" ')'  */
-#line 845 "libyara/grammar.y"
+#line 850 "libyara/grammar.y"
       {
         int result = ERROR_SUCCESS;
 
@@ -2757,11 +2762,11 @@ yyreduce:
         (yyval.modifier).flags = STRING_FLAGS_BASE64;
         (yyval.modifier).alphabet = (yyvsp[-1].sized_string);
       }
-#line 2761 "libyara/grammar.c"
+#line 2766 "libyara/grammar.c"
     break;
 
   case 54: /* string_modifier: "<base64wide>"  */
-#line 862 "libyara/grammar.y"
+#line 867 "libyara/grammar.y"
       {
         (yyval.modifier).flags = STRING_FLAGS_BASE64_WIDE;
         (yyval.modifier).alphabet = ss_new(DEFAULT_BASE64_ALPHABET);
@@ -2769,11 +2774,11 @@ yyreduce:
         if ((yyval.modifier).alphabet == NULL)
           fail_with_error(ERROR_INSUFFICIENT_MEMORY);
       }
-#line 2773 "libyara/grammar.c"
+#line 2778 "libyara/grammar.c"
     break;
 
   case 55: /* string_modifier: "<base64wide>" '(' "text string" ')'  */
-#line 870 "libyara/grammar.y"
+#line 875 "libyara/grammar.y"
       {
         int result = ERROR_SUCCESS;
 
@@ -2790,17 +2795,17 @@ yyreduce:
         (yyval.modifier).flags = STRING_FLAGS_BASE64_WIDE;
         (yyval.modifier).alphabet = (yyvsp[-1].sized_string);
       }
-#line 2794 "libyara/grammar.c"
+#line 2799 "libyara/grammar.c"
     break;
 
   case 56: /* regexp_modifiers: %empty  */
-#line 889 "libyara/grammar.y"
+#line 894 "libyara/grammar.y"
                                           { (yyval.modifier).flags = 0; }
-#line 2800 "libyara/grammar.c"
+#line 2805 "libyara/grammar.c"
     break;
 
   case 57: /* regexp_modifiers: regexp_modifiers regexp_modifier  */
-#line 891 "libyara/grammar.y"
+#line 896 "libyara/grammar.y"
       {
         if ((yyvsp[-1].modifier).flags & (yyvsp[0].modifier).flags)
         {
@@ -2811,47 +2816,47 @@ yyreduce:
           (yyval.modifier).flags = (yyvsp[-1].modifier).flags | (yyvsp[0].modifier).flags;
         }
       }
-#line 2815 "libyara/grammar.c"
+#line 2820 "libyara/grammar.c"
     break;
 
   case 58: /* regexp_modifier: "<wide>"  */
-#line 904 "libyara/grammar.y"
+#line 909 "libyara/grammar.y"
                     { (yyval.modifier).flags = STRING_FLAGS_WIDE; }
-#line 2821 "libyara/grammar.c"
+#line 2826 "libyara/grammar.c"
     break;
 
   case 59: /* regexp_modifier: "<ascii>"  */
-#line 905 "libyara/grammar.y"
+#line 910 "libyara/grammar.y"
                     { (yyval.modifier).flags = STRING_FLAGS_ASCII; }
-#line 2827 "libyara/grammar.c"
+#line 2832 "libyara/grammar.c"
     break;
 
   case 60: /* regexp_modifier: "<nocase>"  */
-#line 906 "libyara/grammar.y"
+#line 911 "libyara/grammar.y"
                     { (yyval.modifier).flags = STRING_FLAGS_NO_CASE; }
-#line 2833 "libyara/grammar.c"
+#line 2838 "libyara/grammar.c"
     break;
 
   case 61: /* regexp_modifier: "<fullword>"  */
-#line 907 "libyara/grammar.y"
+#line 912 "libyara/grammar.y"
                     { (yyval.modifier).flags = STRING_FLAGS_FULL_WORD; }
-#line 2839 "libyara/grammar.c"
+#line 2844 "libyara/grammar.c"
     break;
 
   case 62: /* regexp_modifier: "<private>"  */
-#line 908 "libyara/grammar.y"
+#line 913 "libyara/grammar.y"
                     { (yyval.modifier).flags = STRING_FLAGS_PRIVATE; }
-#line 2845 "libyara/grammar.c"
+#line 2850 "libyara/grammar.c"
     break;
 
   case 63: /* hex_modifiers: %empty  */
-#line 912 "libyara/grammar.y"
+#line 917 "libyara/grammar.y"
                                           { (yyval.modifier).flags = 0; }
-#line 2851 "libyara/grammar.c"
+#line 2856 "libyara/grammar.c"
     break;
 
   case 64: /* hex_modifiers: hex_modifiers hex_modifier  */
-#line 914 "libyara/grammar.y"
+#line 919 "libyara/grammar.y"
       {
         if ((yyvsp[-1].modifier).flags & (yyvsp[0].modifier).flags)
         {
@@ -2862,17 +2867,17 @@ yyreduce:
           (yyval.modifier).flags = (yyvsp[-1].modifier).flags | (yyvsp[0].modifier).flags;
         }
       }
-#line 2866 "libyara/grammar.c"
+#line 2871 "libyara/grammar.c"
     break;
 
   case 65: /* hex_modifier: "<private>"  */
-#line 927 "libyara/grammar.y"
+#line 932 "libyara/grammar.y"
                     { (yyval.modifier).flags = STRING_FLAGS_PRIVATE; }
-#line 2872 "libyara/grammar.c"
+#line 2877 "libyara/grammar.c"
     break;
 
   case 66: /* identifier: "identifier"  */
-#line 932 "libyara/grammar.y"
+#line 937 "libyara/grammar.y"
       {
         YR_EXPRESSION expr;
 
@@ -2968,11 +2973,11 @@ yyreduce:
 
         fail_if_error(result);
       }
-#line 2972 "libyara/grammar.c"
+#line 2977 "libyara/grammar.c"
     break;
 
   case 67: /* identifier: identifier '.' "identifier"  */
-#line 1028 "libyara/grammar.y"
+#line 1033 "libyara/grammar.y"
       {
         int result = ERROR_SUCCESS;
         YR_OBJECT* field = NULL;
@@ -3020,11 +3025,11 @@ yyreduce:
 
         fail_if_error(result);
       }
-#line 3024 "libyara/grammar.c"
+#line 3029 "libyara/grammar.c"
     break;
 
   case 68: /* identifier: identifier '[' primary_expression ']'  */
-#line 1076 "libyara/grammar.y"
+#line 1081 "libyara/grammar.y"
       {
         int result = ERROR_SUCCESS;
         YR_OBJECT_ARRAY* array;
@@ -3084,11 +3089,11 @@ yyreduce:
 
         fail_if_error(result);
       }
-#line 3088 "libyara/grammar.c"
+#line 3093 "libyara/grammar.c"
     break;
 
   case 69: /* identifier: identifier '(' arguments ')'  */
-#line 1137 "libyara/grammar.y"
+#line 1142 "libyara/grammar.y"
       {
         YR_ARENA_REF ref = YR_ARENA_NULL_REF;
         int result = ERROR_SUCCESS;
@@ -3129,28 +3134,28 @@ yyreduce:
 
         fail_if_error(result);
       }
-#line 3133 "libyara/grammar.c"
+#line 3138 "libyara/grammar.c"
     break;
 
   case 70: /* arguments: %empty  */
-#line 1182 "libyara/grammar.y"
+#line 1187 "libyara/grammar.y"
       {
         (yyval.c_string) = yr_strdup("");
 
         if ((yyval.c_string) == NULL)
           fail_with_error(ERROR_INSUFFICIENT_MEMORY);
       }
-#line 3144 "libyara/grammar.c"
+#line 3149 "libyara/grammar.c"
     break;
 
   case 71: /* arguments: arguments_list  */
-#line 1188 "libyara/grammar.y"
+#line 1193 "libyara/grammar.y"
                       { (yyval.c_string) = (yyvsp[0].c_string); }
-#line 3150 "libyara/grammar.c"
+#line 3155 "libyara/grammar.c"
     break;
 
   case 72: /* arguments_list: expression  */
-#line 1193 "libyara/grammar.y"
+#line 1198 "libyara/grammar.y"
       {
         (yyval.c_string) = (char*) yr_malloc(YR_MAX_FUNCTION_ARGS + 1);
 
@@ -3185,11 +3190,11 @@ yyreduce:
             assert(compiler->last_error != ERROR_SUCCESS);
         }
       }
-#line 3189 "libyara/grammar.c"
+#line 3194 "libyara/grammar.c"
     break;
 
   case 73: /* arguments_list: arguments_list ',' expression  */
-#line 1228 "libyara/grammar.y"
+#line 1233 "libyara/grammar.y"
       {
         int result = ERROR_SUCCESS;
 
@@ -3238,11 +3243,11 @@ yyreduce:
 
         (yyval.c_string) = (yyvsp[-2].c_string);
       }
-#line 3242 "libyara/grammar.c"
+#line 3247 "libyara/grammar.c"
     break;
 
   case 74: /* regexp: "regular expression"  */
-#line 1281 "libyara/grammar.y"
+#line 1286 "libyara/grammar.y"
       {
         YR_ARENA_REF re_ref;
         RE_ERROR error;
@@ -3293,11 +3298,11 @@ yyreduce:
 
         (yyval.expression).type = EXPRESSION_TYPE_REGEXP;
       }
-#line 3297 "libyara/grammar.c"
+#line 3302 "libyara/grammar.c"
     break;
 
   case 75: /* boolean_expression: expression  */
-#line 1336 "libyara/grammar.y"
+#line 1341 "libyara/grammar.y"
       {
         if ((yyvsp[0].expression).type == EXPRESSION_TYPE_STRING)
         {
@@ -3325,33 +3330,33 @@ yyreduce:
 
         (yyval.expression).type = EXPRESSION_TYPE_BOOLEAN;
       }
-#line 3329 "libyara/grammar.c"
+#line 3334 "libyara/grammar.c"
     break;
 
   case 76: /* expression: "<true>"  */
-#line 1367 "libyara/grammar.y"
+#line 1372 "libyara/grammar.y"
       {
         fail_if_error(yr_parser_emit_push_const(yyscanner, 1));
 
         (yyval.expression).type = EXPRESSION_TYPE_BOOLEAN;
         (yyval.expression).required_strings.count = 0;
       }
-#line 3340 "libyara/grammar.c"
+#line 3345 "libyara/grammar.c"
     break;
 
   case 77: /* expression: "<false>"  */
-#line 1374 "libyara/grammar.y"
+#line 1379 "libyara/grammar.y"
       {
         fail_if_error(yr_parser_emit_push_const(yyscanner, 0));
 
         (yyval.expression).type = EXPRESSION_TYPE_BOOLEAN;
         (yyval.expression).required_strings.count = 0;
       }
-#line 3351 "libyara/grammar.c"
+#line 3356 "libyara/grammar.c"
     break;
 
   case 78: /* expression: primary_expression "<matches>" regexp  */
-#line 1381 "libyara/grammar.y"
+#line 1386 "libyara/grammar.y"
       {
         check_type((yyvsp[-2].expression), EXPRESSION_TYPE_STRING, "matches");
         check_type((yyvsp[0].expression), EXPRESSION_TYPE_REGEXP, "matches");
@@ -3364,11 +3369,11 @@ yyreduce:
         (yyval.expression).type = EXPRESSION_TYPE_BOOLEAN;
         (yyval.expression).required_strings.count = 0;
       }
-#line 3368 "libyara/grammar.c"
+#line 3373 "libyara/grammar.c"
     break;
 
   case 79: /* expression: primary_expression "<contains>" primary_expression  */
-#line 1394 "libyara/grammar.y"
+#line 1399 "libyara/grammar.y"
       {
         check_type((yyvsp[-2].expression), EXPRESSION_TYPE_STRING, "contains");
         check_type((yyvsp[0].expression), EXPRESSION_TYPE_STRING, "contains");
@@ -3379,11 +3384,11 @@ yyreduce:
         (yyval.expression).type = EXPRESSION_TYPE_BOOLEAN;
         (yyval.expression).required_strings.count = 0;
       }
-#line 3383 "libyara/grammar.c"
+#line 3388 "libyara/grammar.c"
     break;
 
   case 80: /* expression: primary_expression "<icontains>" primary_expression  */
-#line 1405 "libyara/grammar.y"
+#line 1410 "libyara/grammar.y"
       {
         check_type((yyvsp[-2].expression), EXPRESSION_TYPE_STRING, "icontains");
         check_type((yyvsp[0].expression), EXPRESSION_TYPE_STRING, "icontains");
@@ -3394,11 +3399,11 @@ yyreduce:
         (yyval.expression).type = EXPRESSION_TYPE_BOOLEAN;
         (yyval.expression).required_strings.count = 0;
       }
-#line 3398 "libyara/grammar.c"
+#line 3403 "libyara/grammar.c"
     break;
 
   case 81: /* expression: primary_expression "<startswith>" primary_expression  */
-#line 1416 "libyara/grammar.y"
+#line 1421 "libyara/grammar.y"
       {
         check_type((yyvsp[-2].expression), EXPRESSION_TYPE_STRING, "startswith");
         check_type((yyvsp[0].expression), EXPRESSION_TYPE_STRING, "startswith");
@@ -3409,11 +3414,11 @@ yyreduce:
         (yyval.expression).type = EXPRESSION_TYPE_BOOLEAN;
         (yyval.expression).required_strings.count = 0;
       }
-#line 3413 "libyara/grammar.c"
+#line 3418 "libyara/grammar.c"
     break;
 
   case 82: /* expression: primary_expression "<istartswith>" primary_expression  */
-#line 1427 "libyara/grammar.y"
+#line 1432 "libyara/grammar.y"
       {
         check_type((yyvsp[-2].expression), EXPRESSION_TYPE_STRING, "istartswith");
         check_type((yyvsp[0].expression), EXPRESSION_TYPE_STRING, "istartswith");
@@ -3424,11 +3429,11 @@ yyreduce:
         (yyval.expression).type = EXPRESSION_TYPE_BOOLEAN;
         (yyval.expression).required_strings.count = 0;
       }
-#line 3428 "libyara/grammar.c"
+#line 3433 "libyara/grammar.c"
     break;
 
   case 83: /* expression: primary_expression "<endswith>" primary_expression  */
-#line 1438 "libyara/grammar.y"
+#line 1443 "libyara/grammar.y"
       {
         check_type((yyvsp[-2].expression), EXPRESSION_TYPE_STRING, "endswith");
         check_type((yyvsp[0].expression), EXPRESSION_TYPE_STRING, "endswith");
@@ -3439,11 +3444,11 @@ yyreduce:
         (yyval.expression).type = EXPRESSION_TYPE_BOOLEAN;
         (yyval.expression).required_strings.count = 0;
       }
-#line 3443 "libyara/grammar.c"
+#line 3448 "libyara/grammar.c"
     break;
 
   case 84: /* expression: primary_expression "<iendswith>" primary_expression  */
-#line 1449 "libyara/grammar.y"
+#line 1454 "libyara/grammar.y"
       {
         check_type((yyvsp[-2].expression), EXPRESSION_TYPE_STRING, "iendswith");
         check_type((yyvsp[0].expression), EXPRESSION_TYPE_STRING, "iendswith");
@@ -3454,11 +3459,11 @@ yyreduce:
         (yyval.expression).type = EXPRESSION_TYPE_BOOLEAN;
         (yyval.expression).required_strings.count = 0;
       }
-#line 3458 "libyara/grammar.c"
+#line 3463 "libyara/grammar.c"
     break;
 
   case 85: /* expression: primary_expression "<iequals>" primary_expression  */
-#line 1460 "libyara/grammar.y"
+#line 1465 "libyara/grammar.y"
       {
         check_type((yyvsp[-2].expression), EXPRESSION_TYPE_STRING, "iequals");
         check_type((yyvsp[0].expression), EXPRESSION_TYPE_STRING, "iequals");
@@ -3469,11 +3474,11 @@ yyreduce:
         (yyval.expression).type = EXPRESSION_TYPE_BOOLEAN;
         (yyval.expression).required_strings.count = 0;
       }
-#line 3473 "libyara/grammar.c"
+#line 3478 "libyara/grammar.c"
     break;
 
   case 86: /* expression: "string identifier"  */
-#line 1471 "libyara/grammar.y"
+#line 1476 "libyara/grammar.y"
       {
         int result = yr_parser_reduce_string_identifier(
             yyscanner,
@@ -3488,11 +3493,11 @@ yyreduce:
         (yyval.expression).type = EXPRESSION_TYPE_BOOLEAN;
         (yyval.expression).required_strings.count = 1;
       }
-#line 3492 "libyara/grammar.c"
+#line 3497 "libyara/grammar.c"
     break;
 
   case 87: /* expression: "string identifier" "<at>" primary_expression  */
-#line 1486 "libyara/grammar.y"
+#line 1491 "libyara/grammar.y"
       {
         int result;
 
@@ -3508,11 +3513,11 @@ yyreduce:
         (yyval.expression).required_strings.count = 1;
         (yyval.expression).type = EXPRESSION_TYPE_BOOLEAN;
       }
-#line 3512 "libyara/grammar.c"
+#line 3517 "libyara/grammar.c"
     break;
 
   case 88: /* expression: "string identifier" "<in>" range  */
-#line 1502 "libyara/grammar.y"
+#line 1507 "libyara/grammar.y"
       {
         int result = yr_parser_reduce_string_identifier(
             yyscanner, (yyvsp[-2].c_string), OP_FOUND_IN, YR_UNDEFINED);
@@ -3524,11 +3529,11 @@ yyreduce:
         (yyval.expression).required_strings.count = 1;
         (yyval.expression).type = EXPRESSION_TYPE_BOOLEAN;
       }
-#line 3528 "libyara/grammar.c"
+#line 3533 "libyara/grammar.c"
     break;
 
   case 89: /* expression: "<for>" for_expression error  */
-#line 1514 "libyara/grammar.y"
+#line 1519 "libyara/grammar.y"
       {
         // Free all the loop variable identifiers, including the variables for
         // the current loop (represented by loop_index), and set loop_index to
@@ -3545,11 +3550,11 @@ yyreduce:
         compiler->loop_index = -1;
         YYERROR;
       }
-#line 3549 "libyara/grammar.c"
+#line 3554 "libyara/grammar.c"
     break;
 
   case 90: /* $@6: %empty  */
-#line 1588 "libyara/grammar.y"
+#line 1593 "libyara/grammar.y"
       {
         // var_frame is used for accessing local variables used in this loop.
         // All local variables are accessed using var_frame as a reference,
@@ -3587,11 +3592,11 @@ yyreduce:
         fail_if_error(yr_parser_emit_with_arg(
             yyscanner, OP_POP_M, var_frame + 2, NULL, NULL));
       }
-#line 3591 "libyara/grammar.c"
+#line 3596 "libyara/grammar.c"
     break;
 
   case 91: /* $@7: %empty  */
-#line 1626 "libyara/grammar.y"
+#line 1631 "libyara/grammar.y"
       {
         YR_LOOP_CONTEXT* loop_ctx = &compiler->loop[compiler->loop_index];
         YR_FIXUP* fixup;
@@ -3640,11 +3645,11 @@ yyreduce:
 
         loop_ctx->start_ref = loop_start_ref;
       }
-#line 3644 "libyara/grammar.c"
+#line 3649 "libyara/grammar.c"
     break;
 
   case 92: /* expression: "<for>" for_expression $@6 for_iteration ':' $@7 '(' boolean_expression ')'  */
-#line 1675 "libyara/grammar.y"
+#line 1680 "libyara/grammar.y"
       {
         int32_t jmp_offset;
         YR_FIXUP* fixup;
@@ -3725,11 +3730,11 @@ yyreduce:
         (yyval.expression).type = EXPRESSION_TYPE_BOOLEAN;
         (yyval.expression).required_strings.count = 0;
       }
-#line 3729 "libyara/grammar.c"
+#line 3734 "libyara/grammar.c"
     break;
 
   case 93: /* expression: for_expression "<of>" string_set  */
-#line 1756 "libyara/grammar.y"
+#line 1761 "libyara/grammar.y"
       {
         if ((yyvsp[-2].expression).type == EXPRESSION_TYPE_INTEGER && (yyvsp[-2].expression).value.integer > (yyvsp[0].integer))
         {
@@ -3752,11 +3757,11 @@ yyreduce:
 
         (yyval.expression).type = EXPRESSION_TYPE_BOOLEAN;
       }
-#line 3756 "libyara/grammar.c"
+#line 3761 "libyara/grammar.c"
     break;
 
   case 94: /* expression: for_expression "<of>" rule_set  */
-#line 1779 "libyara/grammar.y"
+#line 1784 "libyara/grammar.y"
       {
         if ((yyvsp[-2].expression).type == EXPRESSION_TYPE_INTEGER && (yyvsp[-2].expression).value.integer > (yyvsp[0].integer))
         {
@@ -3768,11 +3773,11 @@ yyreduce:
         (yyval.expression).type = EXPRESSION_TYPE_BOOLEAN;
         (yyval.expression).required_strings.count = 0;
       }
-#line 3772 "libyara/grammar.c"
+#line 3777 "libyara/grammar.c"
     break;
 
   case 95: /* expression: primary_expression '%' "<of>" string_set  */
-#line 1791 "libyara/grammar.y"
+#line 1796 "libyara/grammar.y"
       {
         check_type((yyvsp[-3].expression), EXPRESSION_TYPE_INTEGER, "%");
 
@@ -3800,11 +3805,11 @@ yyreduce:
 
         yr_parser_emit_with_arg(yyscanner, OP_OF_PERCENT, OF_STRING_SET, NULL, NULL);
       }
-#line 3804 "libyara/grammar.c"
+#line 3809 "libyara/grammar.c"
     break;
 
   case 96: /* expression: primary_expression '%' "<of>" rule_set  */
-#line 1819 "libyara/grammar.y"
+#line 1824 "libyara/grammar.y"
       {
         check_type((yyvsp[-3].expression), EXPRESSION_TYPE_INTEGER, "%");
 
@@ -3823,11 +3828,11 @@ yyreduce:
 
         yr_parser_emit_with_arg(yyscanner, OP_OF_PERCENT, OF_RULE_SET, NULL, NULL);
       }
-#line 3827 "libyara/grammar.c"
+#line 3832 "libyara/grammar.c"
     break;
 
   case 97: /* expression: for_expression "<of>" string_set "<in>" range  */
-#line 1838 "libyara/grammar.y"
+#line 1843 "libyara/grammar.y"
       {
         if ((yyvsp[-4].expression).type == EXPRESSION_TYPE_INTEGER && (yyvsp[-4].expression).value.integer > (yyvsp[-2].integer))
         {
@@ -3850,11 +3855,11 @@ yyreduce:
 
         (yyval.expression).type = EXPRESSION_TYPE_BOOLEAN;
       }
-#line 3854 "libyara/grammar.c"
+#line 3859 "libyara/grammar.c"
     break;
 
   case 98: /* expression: for_expression "<of>" string_set "<at>" primary_expression  */
-#line 1861 "libyara/grammar.y"
+#line 1866 "libyara/grammar.y"
       {
         if ((yyvsp[0].expression).type != EXPRESSION_TYPE_INTEGER)
         {
@@ -3902,32 +3907,32 @@ yyreduce:
 
         (yyval.expression).type = EXPRESSION_TYPE_BOOLEAN;
       }
-#line 3906 "libyara/grammar.c"
+#line 3911 "libyara/grammar.c"
     break;
 
   case 99: /* expression: "<not>" boolean_expression  */
-#line 1909 "libyara/grammar.y"
+#line 1914 "libyara/grammar.y"
       {
         yr_parser_emit(yyscanner, OP_NOT, NULL);
 
         (yyval.expression).type = EXPRESSION_TYPE_BOOLEAN;
         (yyval.expression).required_strings.count = 0;
       }
-#line 3917 "libyara/grammar.c"
+#line 3922 "libyara/grammar.c"
     break;
 
   case 100: /* expression: "<defined>" boolean_expression  */
-#line 1916 "libyara/grammar.y"
+#line 1921 "libyara/grammar.y"
       {
         yr_parser_emit(yyscanner, OP_DEFINED, NULL);
         (yyval.expression).type = EXPRESSION_TYPE_BOOLEAN;
         (yyval.expression).required_strings.count = 0;
       }
-#line 3927 "libyara/grammar.c"
+#line 3932 "libyara/grammar.c"
     break;
 
   case 101: /* $@8: %empty  */
-#line 1922 "libyara/grammar.y"
+#line 1927 "libyara/grammar.y"
       {
         YR_FIXUP* fixup;
         YR_ARENA_REF jmp_offset_ref;
@@ -3949,11 +3954,11 @@ yyreduce:
         fixup->next = compiler->fixup_stack_head;
         compiler->fixup_stack_head = fixup;
       }
-#line 3953 "libyara/grammar.c"
+#line 3958 "libyara/grammar.c"
     break;
 
   case 102: /* expression: boolean_expression "<and>" $@8 boolean_expression  */
-#line 1944 "libyara/grammar.y"
+#line 1949 "libyara/grammar.y"
       {
         YR_FIXUP* fixup;
 
@@ -3977,11 +3982,11 @@ yyreduce:
         (yyval.expression).type = EXPRESSION_TYPE_BOOLEAN;
         (yyval.expression).required_strings.count = (yyvsp[0].expression).required_strings.count + (yyvsp[-3].expression).required_strings.count;
       }
-#line 3981 "libyara/grammar.c"
+#line 3986 "libyara/grammar.c"
     break;
 
   case 103: /* $@9: %empty  */
-#line 1968 "libyara/grammar.y"
+#line 1973 "libyara/grammar.y"
       {
         YR_FIXUP* fixup;
         YR_ARENA_REF jmp_offset_ref;
@@ -4002,11 +4007,11 @@ yyreduce:
         fixup->next = compiler->fixup_stack_head;
         compiler->fixup_stack_head = fixup;
       }
-#line 4006 "libyara/grammar.c"
+#line 4011 "libyara/grammar.c"
     break;
 
   case 104: /* expression: boolean_expression "<or>" $@9 boolean_expression  */
-#line 1989 "libyara/grammar.y"
+#line 1994 "libyara/grammar.y"
       {
         YR_FIXUP* fixup;
 
@@ -4036,11 +4041,11 @@ yyreduce:
           (yyval.expression).required_strings.count = (yyvsp[-3].expression).required_strings.count;
         }
       }
-#line 4040 "libyara/grammar.c"
+#line 4045 "libyara/grammar.c"
     break;
 
   case 105: /* expression: primary_expression "<" primary_expression  */
-#line 2019 "libyara/grammar.y"
+#line 2024 "libyara/grammar.y"
       {
         fail_if_error(yr_parser_reduce_operation(
             yyscanner, "<", (yyvsp[-2].expression), (yyvsp[0].expression)));
@@ -4048,11 +4053,11 @@ yyreduce:
         (yyval.expression).type = EXPRESSION_TYPE_BOOLEAN;
         (yyval.expression).required_strings.count = 0;
       }
-#line 4052 "libyara/grammar.c"
+#line 4057 "libyara/grammar.c"
     break;
 
   case 106: /* expression: primary_expression ">" primary_expression  */
-#line 2027 "libyara/grammar.y"
+#line 2032 "libyara/grammar.y"
       {
         fail_if_error(yr_parser_reduce_operation(
             yyscanner, ">", (yyvsp[-2].expression), (yyvsp[0].expression)));
@@ -4060,11 +4065,11 @@ yyreduce:
         (yyval.expression).type = EXPRESSION_TYPE_BOOLEAN;
         (yyval.expression).required_strings.count = 0;
       }
-#line 4064 "libyara/grammar.c"
+#line 4069 "libyara/grammar.c"
     break;
 
   case 107: /* expression: primary_expression "<=" primary_expression  */
-#line 2035 "libyara/grammar.y"
+#line 2040 "libyara/grammar.y"
       {
         fail_if_error(yr_parser_reduce_operation(
             yyscanner, "<=", (yyvsp[-2].expression), (yyvsp[0].expression)));
@@ -4072,11 +4077,11 @@ yyreduce:
         (yyval.expression).type = EXPRESSION_TYPE_BOOLEAN;
         (yyval.expression).required_strings.count = 0;
       }
-#line 4076 "libyara/grammar.c"
+#line 4081 "libyara/grammar.c"
     break;
 
   case 108: /* expression: primary_expression ">=" primary_expression  */
-#line 2043 "libyara/grammar.y"
+#line 2048 "libyara/grammar.y"
       {
         fail_if_error(yr_parser_reduce_operation(
             yyscanner, ">=", (yyvsp[-2].expression), (yyvsp[0].expression)));
@@ -4084,11 +4089,11 @@ yyreduce:
         (yyval.expression).type = EXPRESSION_TYPE_BOOLEAN;
         (yyval.expression).required_strings.count = 0;
       }
-#line 4088 "libyara/grammar.c"
+#line 4093 "libyara/grammar.c"
     break;
 
   case 109: /* expression: primary_expression "==" primary_expression  */
-#line 2051 "libyara/grammar.y"
+#line 2056 "libyara/grammar.y"
       {
         fail_if_error(yr_parser_reduce_operation(
             yyscanner, "==", (yyvsp[-2].expression), (yyvsp[0].expression)));
@@ -4096,11 +4101,11 @@ yyreduce:
         (yyval.expression).type = EXPRESSION_TYPE_BOOLEAN;
         (yyval.expression).required_strings.count = 0;
       }
-#line 4100 "libyara/grammar.c"
+#line 4105 "libyara/grammar.c"
     break;
 
   case 110: /* expression: primary_expression "!=" primary_expression  */
-#line 2059 "libyara/grammar.y"
+#line 2064 "libyara/grammar.y"
       {
         fail_if_error(yr_parser_reduce_operation(
             yyscanner, "!=", (yyvsp[-2].expression), (yyvsp[0].expression)));
@@ -4108,33 +4113,33 @@ yyreduce:
         (yyval.expression).type = EXPRESSION_TYPE_BOOLEAN;
         (yyval.expression).required_strings.count = 0;
       }
-#line 4112 "libyara/grammar.c"
+#line 4117 "libyara/grammar.c"
     break;
 
   case 111: /* expression: primary_expression  */
-#line 2067 "libyara/grammar.y"
+#line 2072 "libyara/grammar.y"
       {
         (yyval.expression) = (yyvsp[0].expression);
       }
-#line 4120 "libyara/grammar.c"
+#line 4125 "libyara/grammar.c"
     break;
 
   case 112: /* expression: '(' expression ')'  */
-#line 2071 "libyara/grammar.y"
+#line 2076 "libyara/grammar.y"
       {
         (yyval.expression) = (yyvsp[-1].expression);
       }
-#line 4128 "libyara/grammar.c"
+#line 4133 "libyara/grammar.c"
     break;
 
   case 113: /* for_iteration: for_variables "<in>" iterator  */
-#line 2078 "libyara/grammar.y"
+#line 2083 "libyara/grammar.y"
                                   { (yyval.integer) = FOR_ITERATION_ITERATOR; }
-#line 4134 "libyara/grammar.c"
+#line 4139 "libyara/grammar.c"
     break;
 
   case 114: /* for_iteration: "<of>" string_iterator  */
-#line 2080 "libyara/grammar.y"
+#line 2085 "libyara/grammar.y"
       {
         int var_frame;
         int result = ERROR_SUCCESS;
@@ -4155,11 +4160,11 @@ yyreduce:
 
         (yyval.integer) = FOR_ITERATION_STRING_SET;
       }
-#line 4159 "libyara/grammar.c"
+#line 4164 "libyara/grammar.c"
     break;
 
   case 115: /* for_variables: "identifier"  */
-#line 2105 "libyara/grammar.y"
+#line 2110 "libyara/grammar.y"
       {
         int result = ERROR_SUCCESS;
 
@@ -4179,11 +4184,11 @@ yyreduce:
 
         assert(loop_ctx->vars_count <= YR_MAX_LOOP_VARS);
       }
-#line 4183 "libyara/grammar.c"
+#line 4188 "libyara/grammar.c"
     break;
 
   case 116: /* for_variables: for_variables ',' "identifier"  */
-#line 2125 "libyara/grammar.y"
+#line 2130 "libyara/grammar.y"
       {
         int result = ERROR_SUCCESS;
 
@@ -4208,11 +4213,11 @@ yyreduce:
 
         loop_ctx->vars[loop_ctx->vars_count++].identifier.ptr = (yyvsp[0].c_string);
       }
-#line 4212 "libyara/grammar.c"
+#line 4217 "libyara/grammar.c"
     break;
 
   case 117: /* iterator: identifier  */
-#line 2153 "libyara/grammar.y"
+#line 2158 "libyara/grammar.y"
       {
         YR_LOOP_CONTEXT* loop_ctx = &compiler->loop[compiler->loop_index];
 
@@ -4286,11 +4291,11 @@ yyreduce:
 
         fail_if_error(result);
       }
-#line 4290 "libyara/grammar.c"
+#line 4295 "libyara/grammar.c"
     break;
 
   case 118: /* iterator: set  */
-#line 2227 "libyara/grammar.y"
+#line 2232 "libyara/grammar.y"
       {
         int result = ERROR_SUCCESS;
 
@@ -4318,11 +4323,11 @@ yyreduce:
 
         fail_if_error(result);
       }
-#line 4322 "libyara/grammar.c"
+#line 4327 "libyara/grammar.c"
     break;
 
   case 119: /* set: '(' enumeration ')'  */
-#line 2259 "libyara/grammar.y"
+#line 2264 "libyara/grammar.y"
       {
         // $2.count contains the number of items in the enumeration
         fail_if_error(yr_parser_emit_push_const(yyscanner, (yyvsp[-1].enumeration).count));
@@ -4340,22 +4345,22 @@ yyreduce:
 
         (yyval.enumeration).type = (yyvsp[-1].enumeration).type;
       }
-#line 4344 "libyara/grammar.c"
+#line 4349 "libyara/grammar.c"
     break;
 
   case 120: /* set: range  */
-#line 2277 "libyara/grammar.y"
+#line 2282 "libyara/grammar.y"
       {
         fail_if_error(yr_parser_emit(
             yyscanner, OP_ITER_START_INT_RANGE, NULL));
 
         (yyval.enumeration).type = EXPRESSION_TYPE_INTEGER;
       }
-#line 4355 "libyara/grammar.c"
+#line 4360 "libyara/grammar.c"
     break;
 
   case 121: /* range: '(' primary_expression ".." primary_expression ')'  */
-#line 2288 "libyara/grammar.y"
+#line 2293 "libyara/grammar.y"
       {
         int result = ERROR_SUCCESS;
 
@@ -4394,11 +4399,11 @@ yyreduce:
 
         fail_if_error(result);
       }
-#line 4398 "libyara/grammar.c"
+#line 4403 "libyara/grammar.c"
     break;
 
   case 122: /* enumeration: primary_expression  */
-#line 2331 "libyara/grammar.y"
+#line 2336 "libyara/grammar.y"
       {
         int result = ERROR_SUCCESS;
 
@@ -4414,11 +4419,11 @@ yyreduce:
         (yyval.enumeration).type = (yyvsp[0].expression).type;
         (yyval.enumeration).count = 1;
       }
-#line 4418 "libyara/grammar.c"
+#line 4423 "libyara/grammar.c"
     break;
 
   case 123: /* enumeration: enumeration ',' primary_expression  */
-#line 2347 "libyara/grammar.y"
+#line 2352 "libyara/grammar.y"
       {
         int result = ERROR_SUCCESS;
 
@@ -4434,38 +4439,38 @@ yyreduce:
         (yyval.enumeration).type = (yyvsp[-2].enumeration).type;
         (yyval.enumeration).count = (yyvsp[-2].enumeration).count + 1;
       }
-#line 4438 "libyara/grammar.c"
+#line 4443 "libyara/grammar.c"
     break;
 
   case 124: /* string_iterator: string_set  */
-#line 2367 "libyara/grammar.y"
+#line 2372 "libyara/grammar.y"
       {
         fail_if_error(yr_parser_emit_push_const(yyscanner, (yyvsp[0].integer)));
         fail_if_error(yr_parser_emit(yyscanner, OP_ITER_START_STRING_SET,
             NULL));
       }
-#line 4448 "libyara/grammar.c"
+#line 4453 "libyara/grammar.c"
     break;
 
   case 125: /* $@10: %empty  */
-#line 2376 "libyara/grammar.y"
+#line 2381 "libyara/grammar.y"
       {
         // Push end-of-list marker
         yr_parser_emit_push_const(yyscanner, YR_UNDEFINED);
       }
-#line 4457 "libyara/grammar.c"
+#line 4462 "libyara/grammar.c"
     break;
 
   case 126: /* string_set: '(' $@10 string_enumeration ')'  */
-#line 2381 "libyara/grammar.y"
+#line 2386 "libyara/grammar.y"
       {
         (yyval.integer) = (yyvsp[-1].integer);
       }
-#line 4465 "libyara/grammar.c"
+#line 4470 "libyara/grammar.c"
     break;
 
   case 127: /* string_set: "<them>"  */
-#line 2385 "libyara/grammar.y"
+#line 2390 "libyara/grammar.y"
       {
         fail_if_error(yr_parser_emit_push_const(yyscanner, YR_UNDEFINED));
 
@@ -4475,23 +4480,23 @@ yyreduce:
 
         (yyval.integer) = count;
       }
-#line 4479 "libyara/grammar.c"
+#line 4484 "libyara/grammar.c"
     break;
 
   case 128: /* string_enumeration: string_enumeration_item  */
-#line 2398 "libyara/grammar.y"
+#line 2403 "libyara/grammar.y"
                               { (yyval.integer) = (yyvsp[0].integer); }
-#line 4485 "libyara/grammar.c"
+#line 4490 "libyara/grammar.c"
     break;
 
   case 129: /* string_enumeration: string_enumeration ',' string_enumeration_item  */
-#line 2399 "libyara/grammar.y"
+#line 2404 "libyara/grammar.y"
                                                      { (yyval.integer) = (yyvsp[-2].integer) + (yyvsp[0].integer); }
-#line 4491 "libyara/grammar.c"
+#line 4496 "libyara/grammar.c"
     break;
 
   case 130: /* string_enumeration_item: "string identifier"  */
-#line 2405 "libyara/grammar.y"
+#line 2410 "libyara/grammar.y"
       {
         int count = 0;
         int result = yr_parser_emit_pushes_for_strings(yyscanner, (yyvsp[0].c_string), &count);
@@ -4501,11 +4506,11 @@ yyreduce:
 
         (yyval.integer) = count;
       }
-#line 4505 "libyara/grammar.c"
+#line 4510 "libyara/grammar.c"
     break;
 
   case 131: /* string_enumeration_item: "string identifier with wildcard"  */
-#line 2415 "libyara/grammar.y"
+#line 2420 "libyara/grammar.y"
       {
         int count = 0;
         int result = yr_parser_emit_pushes_for_strings(yyscanner, (yyvsp[0].c_string), &count);
@@ -4515,40 +4520,40 @@ yyreduce:
 
         (yyval.integer) = count;
       }
-#line 4519 "libyara/grammar.c"
+#line 4524 "libyara/grammar.c"
     break;
 
   case 132: /* $@11: %empty  */
-#line 2429 "libyara/grammar.y"
+#line 2434 "libyara/grammar.y"
       {
         // Push end-of-list marker
         yr_parser_emit_push_const(yyscanner, YR_UNDEFINED);
       }
-#line 4528 "libyara/grammar.c"
+#line 4533 "libyara/grammar.c"
     break;
 
   case 133: /* rule_set: '(' $@11 rule_enumeration ')'  */
-#line 2434 "libyara/grammar.y"
+#line 2439 "libyara/grammar.y"
       {
         (yyval.integer) = (yyvsp[-1].integer);
       }
-#line 4536 "libyara/grammar.c"
+#line 4541 "libyara/grammar.c"
     break;
 
   case 134: /* rule_enumeration: rule_enumeration_item  */
-#line 2441 "libyara/grammar.y"
+#line 2446 "libyara/grammar.y"
                             { (yyval.integer) = (yyvsp[0].integer); }
-#line 4542 "libyara/grammar.c"
+#line 4547 "libyara/grammar.c"
     break;
 
   case 135: /* rule_enumeration: rule_enumeration ',' rule_enumeration_item  */
-#line 2442 "libyara/grammar.y"
+#line 2447 "libyara/grammar.y"
                                                  { (yyval.integer) = (yyvsp[-2].integer) + (yyvsp[0].integer); }
-#line 4548 "libyara/grammar.c"
+#line 4553 "libyara/grammar.c"
     break;
 
   case 136: /* rule_enumeration_item: "identifier"  */
-#line 2448 "libyara/grammar.y"
+#line 2453 "libyara/grammar.y"
       {
         int result = ERROR_SUCCESS;
 
@@ -4581,11 +4586,11 @@ yyreduce:
 
         (yyval.integer) = 1;
       }
-#line 4585 "libyara/grammar.c"
+#line 4590 "libyara/grammar.c"
     break;
 
   case 137: /* rule_enumeration_item: "identifier" '*'  */
-#line 2481 "libyara/grammar.y"
+#line 2486 "libyara/grammar.y"
       {
         int count = 0;
         YR_NAMESPACE* ns = (YR_NAMESPACE*) yr_arena_get_ptr(
@@ -4606,11 +4611,11 @@ yyreduce:
 
         (yyval.integer) = count;
       }
-#line 4610 "libyara/grammar.c"
+#line 4615 "libyara/grammar.c"
     break;
 
   case 138: /* for_expression: primary_expression  */
-#line 2506 "libyara/grammar.y"
+#line 2511 "libyara/grammar.y"
       {
         if ((yyvsp[0].expression).type == EXPRESSION_TYPE_INTEGER && !IS_UNDEFINED((yyvsp[0].expression).value.integer))
         {
@@ -4666,57 +4671,57 @@ yyreduce:
 
         (yyval.expression).value.integer = (yyvsp[0].expression).value.integer;
       }
-#line 4670 "libyara/grammar.c"
+#line 4675 "libyara/grammar.c"
     break;
 
   case 139: /* for_expression: for_quantifier  */
-#line 2562 "libyara/grammar.y"
+#line 2567 "libyara/grammar.y"
       {
         (yyval.expression).value.integer = (yyvsp[0].expression).value.integer;
       }
-#line 4678 "libyara/grammar.c"
+#line 4683 "libyara/grammar.c"
     break;
 
   case 140: /* for_quantifier: "<all>"  */
-#line 2569 "libyara/grammar.y"
+#line 2574 "libyara/grammar.y"
       {
         yr_parser_emit_push_const(yyscanner, YR_UNDEFINED);
         (yyval.expression).type = EXPRESSION_TYPE_QUANTIFIER;
         (yyval.expression).value.integer = FOR_EXPRESSION_ALL;
      }
-#line 4688 "libyara/grammar.c"
+#line 4693 "libyara/grammar.c"
     break;
 
   case 141: /* for_quantifier: "<any>"  */
-#line 2575 "libyara/grammar.y"
+#line 2580 "libyara/grammar.y"
       {
         yr_parser_emit_push_const(yyscanner, 1);
         (yyval.expression).type = EXPRESSION_TYPE_QUANTIFIER;
         (yyval.expression).value.integer = FOR_EXPRESSION_ANY;
       }
-#line 4698 "libyara/grammar.c"
+#line 4703 "libyara/grammar.c"
     break;
 
   case 142: /* for_quantifier: "<none>"  */
-#line 2581 "libyara/grammar.y"
+#line 2586 "libyara/grammar.y"
       {
         yr_parser_emit_push_const(yyscanner, 0);
         (yyval.expression).type = EXPRESSION_TYPE_QUANTIFIER;
         (yyval.expression).value.integer = FOR_EXPRESSION_NONE;
       }
-#line 4708 "libyara/grammar.c"
+#line 4713 "libyara/grammar.c"
     break;
 
   case 143: /* primary_expression: '(' primary_expression ')'  */
-#line 2591 "libyara/grammar.y"
+#line 2596 "libyara/grammar.y"
       {
         (yyval.expression) = (yyvsp[-1].expression);
       }
-#line 4716 "libyara/grammar.c"
+#line 4721 "libyara/grammar.c"
     break;
 
   case 144: /* primary_expression: "<filesize>"  */
-#line 2595 "libyara/grammar.y"
+#line 2600 "libyara/grammar.y"
       {
         fail_if_error(yr_parser_emit(
             yyscanner, OP_FILESIZE, NULL));
@@ -4724,11 +4729,11 @@ yyreduce:
         (yyval.expression).type = EXPRESSION_TYPE_INTEGER;
         (yyval.expression).value.integer = YR_UNDEFINED;
       }
-#line 4728 "libyara/grammar.c"
+#line 4733 "libyara/grammar.c"
     break;
 
   case 145: /* primary_expression: "<entrypoint>"  */
-#line 2603 "libyara/grammar.y"
+#line 2608 "libyara/grammar.y"
       {
         yywarning(yyscanner,
             "using deprecated \"entrypoint\" keyword. Use the \"entry_point\" "
@@ -4740,11 +4745,11 @@ yyreduce:
         (yyval.expression).type = EXPRESSION_TYPE_INTEGER;
         (yyval.expression).value.integer = YR_UNDEFINED;
       }
-#line 4744 "libyara/grammar.c"
+#line 4749 "libyara/grammar.c"
     break;
 
   case 146: /* primary_expression: "integer function" '(' primary_expression ')'  */
-#line 2615 "libyara/grammar.y"
+#line 2620 "libyara/grammar.y"
       {
         check_type((yyvsp[-1].expression), EXPRESSION_TYPE_INTEGER, "intXXXX or uintXXXX");
 
@@ -4758,33 +4763,33 @@ yyreduce:
         (yyval.expression).type = EXPRESSION_TYPE_INTEGER;
         (yyval.expression).value.integer = YR_UNDEFINED;
       }
-#line 4762 "libyara/grammar.c"
+#line 4767 "libyara/grammar.c"
     break;
 
   case 147: /* primary_expression: "integer number"  */
-#line 2629 "libyara/grammar.y"
+#line 2634 "libyara/grammar.y"
       {
         fail_if_error(yr_parser_emit_push_const(yyscanner, (yyvsp[0].integer)));
 
         (yyval.expression).type = EXPRESSION_TYPE_INTEGER;
         (yyval.expression).value.integer = (yyvsp[0].integer);
       }
-#line 4773 "libyara/grammar.c"
+#line 4778 "libyara/grammar.c"
     break;
 
   case 148: /* primary_expression: "floating point number"  */
-#line 2636 "libyara/grammar.y"
+#line 2641 "libyara/grammar.y"
       {
         fail_if_error(yr_parser_emit_with_arg_double(
             yyscanner, OP_PUSH, (yyvsp[0].double_), NULL, NULL));
 
         (yyval.expression).type = EXPRESSION_TYPE_FLOAT;
       }
-#line 4784 "libyara/grammar.c"
+#line 4789 "libyara/grammar.c"
     break;
 
   case 149: /* primary_expression: "text string"  */
-#line 2643 "libyara/grammar.y"
+#line 2648 "libyara/grammar.y"
       {
         YR_ARENA_REF ref;
 
@@ -4809,11 +4814,11 @@ yyreduce:
         (yyval.expression).type = EXPRESSION_TYPE_STRING;
         (yyval.expression).value.sized_string_ref = ref;
       }
-#line 4813 "libyara/grammar.c"
+#line 4818 "libyara/grammar.c"
     break;
 
   case 150: /* primary_expression: "string count" "<in>" range  */
-#line 2668 "libyara/grammar.y"
+#line 2673 "libyara/grammar.y"
       {
         int result = yr_parser_reduce_string_identifier(
             yyscanner, (yyvsp[-2].c_string), OP_COUNT_IN, YR_UNDEFINED);
@@ -4825,11 +4830,11 @@ yyreduce:
         (yyval.expression).type = EXPRESSION_TYPE_INTEGER;
         (yyval.expression).value.integer = YR_UNDEFINED;
       }
-#line 4829 "libyara/grammar.c"
+#line 4834 "libyara/grammar.c"
     break;
 
   case 151: /* primary_expression: "string count"  */
-#line 2680 "libyara/grammar.y"
+#line 2685 "libyara/grammar.y"
       {
         int result = yr_parser_reduce_string_identifier(
             yyscanner, (yyvsp[0].c_string), OP_COUNT, YR_UNDEFINED);
@@ -4841,11 +4846,11 @@ yyreduce:
         (yyval.expression).type = EXPRESSION_TYPE_INTEGER;
         (yyval.expression).value.integer = YR_UNDEFINED;
       }
-#line 4845 "libyara/grammar.c"
+#line 4850 "libyara/grammar.c"
     break;
 
   case 152: /* primary_expression: "string offset" '[' primary_expression ']'  */
-#line 2692 "libyara/grammar.y"
+#line 2697 "libyara/grammar.y"
       {
         int result = yr_parser_reduce_string_identifier(
             yyscanner, (yyvsp[-3].c_string), OP_OFFSET, YR_UNDEFINED);
@@ -4857,11 +4862,11 @@ yyreduce:
         (yyval.expression).type = EXPRESSION_TYPE_INTEGER;
         (yyval.expression).value.integer = YR_UNDEFINED;
       }
-#line 4861 "libyara/grammar.c"
+#line 4866 "libyara/grammar.c"
     break;
 
   case 153: /* primary_expression: "string offset"  */
-#line 2704 "libyara/grammar.y"
+#line 2709 "libyara/grammar.y"
       {
         int result = yr_parser_emit_push_const(yyscanner, 1);
 
@@ -4876,11 +4881,11 @@ yyreduce:
         (yyval.expression).type = EXPRESSION_TYPE_INTEGER;
         (yyval.expression).value.integer = YR_UNDEFINED;
       }
-#line 4880 "libyara/grammar.c"
+#line 4885 "libyara/grammar.c"
     break;
 
   case 154: /* primary_expression: "string length" '[' primary_expression ']'  */
-#line 2719 "libyara/grammar.y"
+#line 2724 "libyara/grammar.y"
       {
         int result = yr_parser_reduce_string_identifier(
             yyscanner, (yyvsp[-3].c_string), OP_LENGTH, YR_UNDEFINED);
@@ -4892,11 +4897,11 @@ yyreduce:
         (yyval.expression).type = EXPRESSION_TYPE_INTEGER;
         (yyval.expression).value.integer = YR_UNDEFINED;
       }
-#line 4896 "libyara/grammar.c"
+#line 4901 "libyara/grammar.c"
     break;
 
   case 155: /* primary_expression: "string length"  */
-#line 2731 "libyara/grammar.y"
+#line 2736 "libyara/grammar.y"
       {
         int result = yr_parser_emit_push_const(yyscanner, 1);
 
@@ -4911,11 +4916,11 @@ yyreduce:
         (yyval.expression).type = EXPRESSION_TYPE_INTEGER;
         (yyval.expression).value.integer = YR_UNDEFINED;
       }
-#line 4915 "libyara/grammar.c"
+#line 4920 "libyara/grammar.c"
     break;
 
   case 156: /* primary_expression: identifier  */
-#line 2746 "libyara/grammar.y"
+#line 2751 "libyara/grammar.y"
       {
         int result = ERROR_SUCCESS;
 
@@ -4962,11 +4967,11 @@ yyreduce:
 
         fail_if_error(result);
       }
-#line 4966 "libyara/grammar.c"
+#line 4971 "libyara/grammar.c"
     break;
 
   case 157: /* primary_expression: '-' primary_expression  */
-#line 2793 "libyara/grammar.y"
+#line 2798 "libyara/grammar.y"
       {
         int result = ERROR_SUCCESS;
 
@@ -4987,11 +4992,11 @@ yyreduce:
 
         fail_if_error(result);
       }
-#line 4991 "libyara/grammar.c"
+#line 4996 "libyara/grammar.c"
     break;
 
   case 158: /* primary_expression: primary_expression '+' primary_expression  */
-#line 2814 "libyara/grammar.y"
+#line 2819 "libyara/grammar.y"
       {
         int result = yr_parser_reduce_operation(
             yyscanner, "+", (yyvsp[-2].expression), (yyvsp[0].expression));
@@ -5026,11 +5031,11 @@ yyreduce:
 
         fail_if_error(result);
       }
-#line 5030 "libyara/grammar.c"
+#line 5035 "libyara/grammar.c"
     break;
 
   case 159: /* primary_expression: primary_expression '-' primary_expression  */
-#line 2849 "libyara/grammar.y"
+#line 2854 "libyara/grammar.y"
       {
         int result = yr_parser_reduce_operation(
             yyscanner, "-", (yyvsp[-2].expression), (yyvsp[0].expression));
@@ -5065,11 +5070,11 @@ yyreduce:
 
         fail_if_error(result);
       }
-#line 5069 "libyara/grammar.c"
+#line 5074 "libyara/grammar.c"
     break;
 
   case 160: /* primary_expression: primary_expression '*' primary_expression  */
-#line 2884 "libyara/grammar.y"
+#line 2889 "libyara/grammar.y"
       {
         int result = yr_parser_reduce_operation(
             yyscanner, "*", (yyvsp[-2].expression), (yyvsp[0].expression));
@@ -5103,11 +5108,11 @@ yyreduce:
 
         fail_if_error(result);
       }
-#line 5107 "libyara/grammar.c"
+#line 5112 "libyara/grammar.c"
     break;
 
   case 161: /* primary_expression: primary_expression '\\' primary_expression  */
-#line 2918 "libyara/grammar.y"
+#line 2923 "libyara/grammar.y"
       {
         int result = yr_parser_reduce_operation(
             yyscanner, "\\", (yyvsp[-2].expression), (yyvsp[0].expression));
@@ -5138,11 +5143,11 @@ yyreduce:
 
         fail_if_error(result);
       }
-#line 5142 "libyara/grammar.c"
+#line 5147 "libyara/grammar.c"
     break;
 
   case 162: /* primary_expression: primary_expression '%' primary_expression  */
-#line 2949 "libyara/grammar.y"
+#line 2954 "libyara/grammar.y"
       {
         check_type((yyvsp[-2].expression), EXPRESSION_TYPE_INTEGER, "%");
         check_type((yyvsp[0].expression), EXPRESSION_TYPE_INTEGER, "%");
@@ -5164,11 +5169,11 @@ yyreduce:
           fail_if_error(ERROR_DIVISION_BY_ZERO);
         }
       }
-#line 5168 "libyara/grammar.c"
+#line 5173 "libyara/grammar.c"
     break;
 
   case 163: /* primary_expression: primary_expression '^' primary_expression  */
-#line 2971 "libyara/grammar.y"
+#line 2976 "libyara/grammar.y"
       {
         check_type((yyvsp[-2].expression), EXPRESSION_TYPE_INTEGER, "^");
         check_type((yyvsp[0].expression), EXPRESSION_TYPE_INTEGER, "^");
@@ -5178,11 +5183,11 @@ yyreduce:
         (yyval.expression).type = EXPRESSION_TYPE_INTEGER;
         (yyval.expression).value.integer = OPERATION(^, (yyvsp[-2].expression).value.integer, (yyvsp[0].expression).value.integer);
       }
-#line 5182 "libyara/grammar.c"
+#line 5187 "libyara/grammar.c"
     break;
 
   case 164: /* primary_expression: primary_expression '&' primary_expression  */
-#line 2981 "libyara/grammar.y"
+#line 2986 "libyara/grammar.y"
       {
         check_type((yyvsp[-2].expression), EXPRESSION_TYPE_INTEGER, "^");
         check_type((yyvsp[0].expression), EXPRESSION_TYPE_INTEGER, "^");
@@ -5192,11 +5197,11 @@ yyreduce:
         (yyval.expression).type = EXPRESSION_TYPE_INTEGER;
         (yyval.expression).value.integer = OPERATION(&, (yyvsp[-2].expression).value.integer, (yyvsp[0].expression).value.integer);
       }
-#line 5196 "libyara/grammar.c"
+#line 5201 "libyara/grammar.c"
     break;
 
   case 165: /* primary_expression: primary_expression '|' primary_expression  */
-#line 2991 "libyara/grammar.y"
+#line 2996 "libyara/grammar.y"
       {
         check_type((yyvsp[-2].expression), EXPRESSION_TYPE_INTEGER, "|");
         check_type((yyvsp[0].expression), EXPRESSION_TYPE_INTEGER, "|");
@@ -5206,11 +5211,11 @@ yyreduce:
         (yyval.expression).type = EXPRESSION_TYPE_INTEGER;
         (yyval.expression).value.integer = OPERATION(|, (yyvsp[-2].expression).value.integer, (yyvsp[0].expression).value.integer);
       }
-#line 5210 "libyara/grammar.c"
+#line 5215 "libyara/grammar.c"
     break;
 
   case 166: /* primary_expression: '~' primary_expression  */
-#line 3001 "libyara/grammar.y"
+#line 3006 "libyara/grammar.y"
       {
         check_type((yyvsp[0].expression), EXPRESSION_TYPE_INTEGER, "~");
 
@@ -5220,11 +5225,11 @@ yyreduce:
         (yyval.expression).value.integer = ((yyvsp[0].expression).value.integer == YR_UNDEFINED) ?
             YR_UNDEFINED : ~((yyvsp[0].expression).value.integer);
       }
-#line 5224 "libyara/grammar.c"
+#line 5229 "libyara/grammar.c"
     break;
 
   case 167: /* primary_expression: primary_expression "<<" primary_expression  */
-#line 3011 "libyara/grammar.y"
+#line 3016 "libyara/grammar.y"
       {
         int result;
 
@@ -5244,11 +5249,11 @@ yyreduce:
 
         fail_if_error(result);
       }
-#line 5248 "libyara/grammar.c"
+#line 5253 "libyara/grammar.c"
     break;
 
   case 168: /* primary_expression: primary_expression ">>" primary_expression  */
-#line 3031 "libyara/grammar.y"
+#line 3036 "libyara/grammar.y"
       {
         int result;
 
@@ -5268,19 +5273,19 @@ yyreduce:
 
         fail_if_error(result);
       }
-#line 5272 "libyara/grammar.c"
+#line 5277 "libyara/grammar.c"
     break;
 
   case 169: /* primary_expression: regexp  */
-#line 3051 "libyara/grammar.y"
+#line 3056 "libyara/grammar.y"
       {
         (yyval.expression) = (yyvsp[0].expression);
       }
-#line 5280 "libyara/grammar.c"
+#line 5285 "libyara/grammar.c"
     break;
 
 
-#line 5284 "libyara/grammar.c"
+#line 5289 "libyara/grammar.c"
 
       default: break;
     }
@@ -5504,5 +5509,5 @@ yyreturnlab:
   return yyresult;
 }
 
-#line 3056 "libyara/grammar.y"
+#line 3061 "libyara/grammar.y"
 
